@@ -3,7 +3,7 @@
 
 Decided here, at the level of tokens (values handed to fprintf / taken from the tokenizer): box line of gro, box bounds of the lammps dump format,
 and the reaction of the readers to an atom count that disagrees with the topology.  NOT decided: printf/iostream formatting and parsing themselves
-(printed precision, fixed columns), pdb / xyz / dlpoly / xml bodies, tables.  Unit factors of readers and writers: C20.  IMC matrix layout: C06."""
+(printed precision, fixed columns), pdb / xyz / dlpoly / xml bodies.  Tables: operator<< against operator>> of tools::Table (x, y, flags, error column), token level.  Unit factors of readers and writers: C20.  IMC matrix layout: C06."""
 import os, re, time, itertools
 import sympy as sp
 import z3
@@ -17,7 +17,7 @@ META = {
     'trusted_base': ['clang 14 AST = the code g++ compiles', 'RVC executor', 'ASSUMED contracts: fprintf hands its arguments to the file in order, one per conversion; tools::getline / Tokenizer / stoi / lexical_cast return what the line holds '
                      '(formatting and parsing themselves are not modelled: a value is a token)', 'conv::nm2ang / ang2nm read from constants.h (their reciprocity is C20)'],
     'assumptions': ['frames without atoms for the box obligations (the atom lines are fixed-column text, outside this technique)'],
-    'not_decided': ['printed precision and fixed-column layout of every format', 'pdb (CRYST1 lengths/angles), xyz, dlpoly and xml bodies, multi-frame sequencing', 'tables with flags and error column', 'h5md'],
+    'not_decided': ['printed precision and fixed-column layout of every format', 'pdb (CRYST1 lengths/angles), xyz, dlpoly and xml bodies, multi-frame sequencing', 'tables longer than the enumerated row count, the size line and the comment text of Table::Save, number formatting (precision 10)', 'h5md'],
     'explanation': 'partial: token-level write/read consistency of box lines and atom-count checks',
 }
 
@@ -846,6 +846,147 @@ def job_count(seed):
     return obs
 
 
+# ----------------------------------------------------------------------------------------------------------------------------------------------
+# tables: operator<<(ostream, Table) against operator>>(istream, Table); imcio_write_matrix against imcio_read_matrix
+NPOS = ('npos',)
+
+
+class TokLine:
+    """a text line as the sequence of its whitespace-separated tokens; `comment` = number of leading tokens before a '#' (None: no comment on the line)"""
+    def __init__(s, toks, comment=None): s.toks, s.comment = list(toks), comment
+    def call(s, name, args):
+        if name == 'find':
+            if args and args[0] == '#' and s.comment is not None:
+                return ('cut', s.comment)
+            return NPOS
+        if name == 'substr':
+            if len(args) == 2 and isinstance(args[1], tuple) and args[1] and args[1][0] == 'cut':
+                return TokLine(s.toks[:args[1][1]])
+            if len(args) == 2 and args[1] is NPOS:
+                return s
+            raise rvc.Unsupported('line.substr%r' % (tuple(args),))
+        raise rvc.Unsupported('method %s of a text line' % name)
+
+
+def table_fn(relpath, filt, name):
+    fs = rvc.functions(rvc.ast(relpath, filt))
+    c = [f for f in fs.get(name, []) if 'votca::tools::Table' in f['type']['qualType'] and rvc.body_of(f)]
+    if len(c) != 1:
+        raise core.Undecided('front end: %s on tools::Table not found (or ambiguous: %d) in %s' % (name, len(c), relpath))
+    return c[0]
+
+
+def replay_table(o, mode):
+    try:
+        exe = native.build('C08.table', open(os.path.join(CDIR, 'replay_table.cc')).read(), [], sanitize=False, opt='-O1', libs=native.libs())
+    except core.Undecided as e:
+        o['replay'] = {'reproduced': False, 'error': str(e)}
+        return
+    tmp = os.path.join(core.VERIF, 'build', 'tmp')
+    os.makedirs(tmp, exist_ok=True)
+    f = os.path.join(tmp, 'c08_table_%d.tab' % os.getpid())
+    rc, out, err = native.execute(exe, [mode, f], timeout=60)
+    o['replay'] = {'reproduced': rc == 1, 'cmd': '%s %s %s' % (exe, mode, f), 'rc': rc, 'stdout': (out or '')[-900:], 'stderr': (err or '')[-300:],
+                   'against': 'real tools::Table::Save / Table::Load (libvotca_tools from the working tree): a table with flags i/o/u and (mode yerr) an error column, written and loaded again', 'input_from': 'fixed input in the domain of the refuted obligation'}
+
+
+def job_table(seed):
+    """Table: the lines operator<< writes, read by operator>>, give back x, y, the flags and (when the table has one) the error column.
+    Both operators, Table::push_back and Table::resize are executed from the AST; streams carry tokens (assumed contract of iostream formatting)."""
+    rvc.reset()
+    fw = table_fn('tools/src/libtools/table.cc', 'operator<<', 'operator<<')
+    fr = table_fn('tools/src/libtools/table.cc', 'operator>>', 'operator>>')
+    meths = rvc.functions(rvc.ast('tools/src/libtools/table.cc', 'Table'))
+    for m in ('push_back', 'resize', 'clear'):
+        if m not in meths:
+            raise core.Undecided('front end: Table::%s not found' % m)
+    mfs = [{'name': 'operator<<(std::ostream &, const Table &)', 'file': 'tools/src/libtools/table.cc', 'ast_nodes': rvc.node_count(fw)},
+           {'name': 'operator>>(std::istream &, Table &)', 'file': 'tools/src/libtools/table.cc', 'ast_nodes': rvc.node_count(fr)}] + \
+          [{'name': 'Table::' + m, 'file': 'tools/src/libtools/table.cc', 'ast_nodes': rvc.node_count(meths[m][0])} for m in ('push_back', 'resize', 'clear')]
+    obs = []
+    FL = ['i', 'o', 'u', '\0', ' ']
+    n = 2
+    MAN = ('manip',)
+    for has_yerr in (False, True):
+      for comment in (False, True):
+        for flags in itertools.product(FL, repeat=n):
+            if comment and flags != ('i', 'o'):
+                continue
+            x, y, e = Mx.sym('x', n, 1), Mx.sym('y', n, 1), Mx.sym('e', n, 1)
+            t = {'__class__': 'Table', 'x_': x, 'y_': y, 'yerr_': e if has_yerr else Mx(0, 1), 'flags_': list(flags), 'has_yerr_': has_yerr}
+            cur = []
+            ex = Exec({'out': 'ostream', 't': t}, {'ostream_write': cur.append, 'precision': lambda o_, p_: None, 'global': lambda nm: MAN}, {}, {})
+            try:
+                ex.stmt(rvc.body_of(fw))
+            except Ret:
+                pass
+            lines, c = [], []
+            for v in cur:
+                if v == '\n':
+                    lines.append(c); c = []
+                elif isinstance(v, str) and v.strip() == '' or v == 'ostream' or v is MAN:
+                    continue
+                else:
+                    c.append(v)
+            tag = '%s.%s%s' % ('yerr' if has_yerr else 'plain', ''.join({'\0': '0', ' ': '_'}.get(f, f) for f in flags), '.comment' if comment else '')
+            bound = '%d rows' % n
+            want = [[x.g(i, 0), y.g(i, 0)] + ([e.g(i, 0)] if has_yerr else []) + ([flags[i]] if flags[i] not in ('\0', ' ') else []) for i in range(n)]
+            ok = len(lines) == n and not c and all(len(l) == len(w) and all((a == b) if isinstance(b, str) else (isinstance(a, D) and rvc.nf_zero(a.v - b.v)) for a, b in zip(l, w)) for l, w in zip(lines, want))
+            ob(obs, 'C08.table/%s/lines' % tag, 'operator<<(std::ostream &, const Table &)', 'one line per row: x, y, the error (when the table has an error column), the flag (when the row has one)', ok, str(lines)[:300], bound=bound, fns=mfs)
+            if not ok:
+                continue
+            # the reader on exactly these lines (with a comment head line and a trailing comment on the first row in the comment variant: Table::Save writes "# ..." lines)
+            rl = [TokLine(l) for l in lines]
+            if comment:
+                rl = [TokLine(['#', 'comment'], comment=0)] + [TokLine(lines[0] + ['#', 'x'], comment=len(lines[0]))] + rl[1:]
+            pos = [0]
+            def getline(stream, line):
+                if pos[0] >= len(rl):
+                    return False
+                line.set(rl[pos[0]]); pos[0] += 1
+                return True
+            getline.by_ref = True
+            def construct(ex_, nn, ty, args):
+                if 'Tokenizer' in ty:
+                    v = rvc.rval(ex_.expr(args[0]))
+                    if not isinstance(v, TokLine):
+                        raise rvc.Unsupported('Tokenizer over %r' % type(v))
+                    return {'__class__': 'Tokenizer', 'toks': v.toks}
+                return NotImplemented
+            t2 = {'__class__': 'Table', 'x_': Mx.sym('oldx', 1, 1), 'y_': Mx.sym('oldy', 1, 1), 'yerr_': Mx(0, 1), 'flags_': ['u'], 'has_yerr_': False, 'error_details_': '', 'comment_line_': '', 'has_comment_': False}
+            cbr = {'getline': getline, 'construct': construct, 'ToVector': lambda o_: list(o_['toks']), 'lexical_cast': lambda *a: 'N', 'stod': lambda v: D.lift(v) if not isinstance(v, str) else (_ for _ in ()).throw(Thrown('stod of %r' % v)),
+                   'getErrorDetails': lambda o_: 'file', 'exec_classes': ('Table',)}
+            exr = Exec({'in': 'STREAM', 't': t2}, cbr, meths, {})
+            thrown = False
+            try:
+                exr.stmt(rvc.body_of(fr))
+            except Ret:
+                pass
+            except Thrown:
+                thrown = True
+            F = 'operator<<(std::ostream &, const Table &) + operator>>(std::istream &, Table &)'
+            okn = (not thrown) and t2['x_'].r == n and t2['y_'].r == n and len(t2['flags_']) == n
+            ob(obs, 'C08.table/%s/rows' % tag, F, 'the reader accepts the lines and returns one row per written row (whatever the table held before is gone)', okn, 'thrown=%s rows=%s' % (thrown, t2['x_'].r), bound=bound, fns=mfs)
+            if not okn:
+                continue
+            bad = [(i, nm) for i in range(n) for nm, a, b in (('x', t2['x_'], x), ('y', t2['y_'], y)) if not rvc.nf_zero(a.g(i, 0).v - b.g(i, 0).v)]
+            ob(obs, 'C08.table/%s/xy' % tag, F, 'x and y of every row are read back unchanged', not bad, 'differing (row, column): %s' % bad, bound=bound, fns=mfs, wit={'table': 'any table with %d rows' % n, 'differing': str(bad)})
+            wantf = [f if f not in ('\0', ' ') else 'i' for f in flags]
+            okf = t2['flags_'] == wantf
+            o = ob(obs, 'C08.table/%s/flags' % tag, F, 'the flag of every row is read back unchanged (a row written without a flag is in range, i)', okf, 'written %r read %r' % (list(flags), t2['flags_']), bound=bound, fns=mfs,
+                   wit={'flags': [f for f in flags], 'read': [str(f) for f in t2['flags_']]})
+            if not okf:
+                replay_table(o, 'flags')
+            if has_yerr:
+                oke = bool(t2['has_yerr_']) and t2['yerr_'].r == n and all(rvc.nf_zero(t2['yerr_'].g(i, 0).v - e.g(i, 0).v) for i in range(n))
+                o = ob(obs, 'C08.table/%s/yerr' % tag, F, 'the error column of a table that has one is read back unchanged', oke,
+                       'after reading: has_yerr_=%s, yerr_ has %d entries (written: %d)' % (t2['has_yerr_'], t2['yerr_'].r, n), bound=bound, fns=mfs,
+                       wit={'has_yerr_read': bool(t2['has_yerr_']), 'yerr_rows_read': t2['yerr_'].r, 'rows_written': n})
+                if not oke:
+                    replay_table(o, 'yerr')
+    return obs
+
+
 def collect(obs):
     seen = set(f['name'] for f in META['functions'])
     for o in obs:
@@ -856,7 +997,7 @@ def collect(obs):
 
 
 def run(tier, seed, only=None):
-    jobs = [(job_gro_box, (seed,)), (job_lammps_box, (seed,)), (job_dlpoly_box, (seed,)), (job_lammps_atoms, (seed,)), (job_gro_atoms, (seed,)), (job_writer_units, (seed,)), (job_pdb_columns, (seed,)), (job_count, (seed,))]
+    jobs = [(job_gro_box, (seed,)), (job_lammps_box, (seed,)), (job_dlpoly_box, (seed,)), (job_lammps_atoms, (seed,)), (job_gro_atoms, (seed,)), (job_writer_units, (seed,)), (job_pdb_columns, (seed,)), (job_count, (seed,)), (job_table, (seed,))]
     if only:
         jobs = [j for j in jobs if re.search(only, j[0].__name__)] or jobs
     obs = core.pmap(jobs)
